@@ -12,6 +12,7 @@ if [ -n "$(git status --porcelain -- hta)" ]; then echo "refusing: /repo/hta has
 trap 'git -C /repo checkout -- . >/dev/null 2>&1' EXIT INT TERM
 git apply "$patch" || { echo "patch does not apply" >&2; exit 2; }
 cd /verif
+export VERIF_EVIDENCE_DIR=/tmp/verif-seed-evidence
 for p in $props; do
   out=$(./vcheck "$p" --tier "$tier" 2>&1); rc=$?
   v=$(echo "$out" | grep -c '^VIOLATION')
